@@ -29,6 +29,7 @@ func Atoms() []*V {
 		Str(""), Str("a"), Str("b"), Str("ab"), Str("0"), Str("1"), Str("\xff"),
 		List(), List(Int(0)), List(Float(0)), List(Float(math.Copysign(0, -1))), List(Float(math.NaN())),
 		List(Int(1), Str("a")), List(Int(1), Int(2)), List(List()),
+		Slice(), Slice(Int(0)), Slice(Int(1), Int(2)), List(Slice()),
 		Map(), Map(Str("a"), Int(1)), Map(Str("a"), Float(math.NaN())), Map(Float(0), Int(1)),
 		Map(Float(math.Copysign(0, -1)), Int(1)), Map(Str("a"), Int(1), Str("b"), Int(2)),
 		Map(Str("name"), Str("cmd0")), // looks like externalCmd{Name: "cmd0"} = Ref(KExtCmd, 0)
@@ -152,6 +153,7 @@ func RandValue(r *common.Rand, depth int) *V {
 		for k := r.Intn(4); k > 0; k-- {
 			l.Elems = append(l.Elems, RandValue(r, depth-1))
 		}
+		l.Sl = r.Intn(4) == 0
 		return l
 	case 10:
 		return RandMap(r, depth)
@@ -198,7 +200,7 @@ func RandMap(r *common.Rand, depth int) *V {
 }
 
 // Twin returns a value that is eq to v (when v holds no NaN) but built
-// differently: signed zeros flipped, map entries inserted in another order,
+// differently: signed zeros flipped, lists built as slices of longer lists, map entries inserted in another order,
 // maps swapped with field maps.
 func Twin(r *common.Rand, v *V) *V {
 	switch v.K {
@@ -212,6 +214,7 @@ func Twin(r *common.Rand, v *V) *V {
 		for _, e := range v.Elems {
 			l.Elems = append(l.Elems, Twin(r, e))
 		}
+		l.Sl = r.Intn(3) == 0
 		return l
 	case 'M', 'S':
 		var ks, vs []*V
